@@ -72,11 +72,11 @@ ObservedSuccess(ev) == IsHash(AbsOut(ev.out, ev.outk)) /\ ev.ret = "out"
 \* the digest identity this request must produce: what an earlier identical request produced
 \* (kprev is an index computed by the driver and VERIFIED here), else the observed string itself
 SameRequest(a, b) == a.ph = b.ph /\ a.s = b.s /\ a.pnull = b.pnull /\ a.snull = b.snull
-KeyFor(ev) ==
-  IF ev.kprev > 0 /\ ev.kprev < l /\ IsHashEv(T[ev.kprev].e) /\ SameRequest(T[ev.kprev], ev)
+KeyLearned(ev) ==
+  ev.kprev > 0 /\ ev.kprev < l /\ IsHashEv(T[ev.kprev].e) /\ SameRequest(T[ev.kprev], ev)
      /\ T[ev.kprev].rel = ev.rel            \* (another library's graph is compared by C02_Released)
      /\ ObservedSuccess(T[ev.kprev])
-  THEN T[ev.kprev].out ELSE ev.out
+KeyFor(ev) == IF KeyLearned(ev) THEN T[ev.kprev].out ELSE ev.out
 
 \* resolve the model's outcome into the record the predicates need
 Resolve(ev) ==
@@ -116,11 +116,11 @@ C_CanonPrefix(ev, oc) ==
      /\ Len(ev.out) = Len(oc.canon) + Len(S!SepOf(oc.m)) + S!DigestLen(oc.m, ev.pl, Len(ev.s))
 \* C01: hashing with a produced hash (or the hash with its digest part replaced) reproduces it.
 \* hprev = index of the call whose result this call used as (the basis of) its setting.
-C_RoundTrip(ev) ==
+A_RoundTrip(ev) ==
   (ev.hprev > 0 /\ ev.hprev < l /\ IsHashEv(T[ev.hprev].e) /\ ObservedSuccess(T[ev.hprev])
      /\ T[ev.hprev].ph = ev.ph /\ Len(ev.s) = Len(T[ev.hprev].out)
      /\ ev.hkeep <= Len(ev.s) /\ SubSeq(ev.s, 1, ev.hkeep) = SubSeq(T[ev.hprev].out, 1, ev.hkeep))
-  => (ObservedSuccess(ev) /\ ev.out = T[ev.hprev].out)
+C_RoundTrip(ev) == A_RoundTrip(ev) => (ObservedSuccess(ev) /\ ev.out = T[ev.hprev].out)
 \* C03: a request that differs from its base request (bprev, given by the driver, verified here)
 \* inside what the method documents as significant -- phrase key, canonical salt or cost -- never
 \* reproduces the base's digest.  Phrases are logged as byte arrays (pc) for these events.
@@ -128,9 +128,16 @@ SigDiff(a, b, oa, ob) ==
   /\ oa.m = ob.m /\ oa.k = "ok" /\ ob.k = "ok"
   /\ S!QuirkFree(oa.m, a.pc) /\ S!QuirkFree(ob.m, b.pc)
   /\ (oa.canon # ob.canon \/ S!PhraseKey(oa.m, a.pc, Len(a.s)) # S!PhraseKey(ob.m, b.pc, Len(b.s)))
-C_Distinct(ev) ==
+A_Distinct(ev) ==
   (ev.bprev > 0 /\ ev.bprev < l /\ IsHashEv(T[ev.bprev].e) /\ ObservedSuccess(T[ev.bprev]) /\ ObservedSuccess(ev)
      /\ SigDiff(T[ev.bprev], ev, SpecOutcome(T[ev.bprev]), SpecOutcome(ev)))
+\* (vacuity guard) a probe on which a false accept would show: a base that hashed, a changed setting the specification refuses
+A_FalseAcceptProbe(ev) ==
+  ev.bprev > 0 /\ ev.bprev < l /\ IsHashEv(T[ev.bprev].e) /\ ObservedSuccess(T[ev.bprev])
+     /\ SpecOutcome(T[ev.bprev]).k = "ok" /\ SpecOutcome(ev).k = "fail" /\ SpecOutcome(ev).m = SpecOutcome(T[ev.bprev]).m
+     /\ ev.s # T[ev.bprev].s
+C_Distinct(ev) ==
+  A_Distinct(ev)
   => LET m == SpecOutcome(ev).m IN
      S!DigestTail(m, T[ev.bprev].out, T[ev.bprev].pl, Len(T[ev.bprev].s)) # S!DigestTail(m, ev.out, ev.pl, Len(ev.s))
 \* C03, second clause: a changed salt/cost field that the specification says must be REFUSED, accepted by the
@@ -153,11 +160,13 @@ C_SameKeySame(ev) ==
 \* C02 (cross-release): the interpretation of the uninterpreted Hash on the corpus is the graph of the
 \* RELEASED libcrypt.so.1 (events with rel = 1, recorded from the released library or loaded from
 \* /verif/golden); a call of the tree under test must reproduce it byte for byte.
-C02_Released(ev) ==
+A_Released(ev) ==
   (ev.rel = 0 /\ ev.rprev > 0 /\ ev.rprev < l /\ IsHashEv(T[ev.rprev].e) /\ T[ev.rprev].rel = 1 /\ SameRequest(T[ev.rprev], ev)
      /\ SpecOutcome(ev).k # "fail"         \* (a method disabled in this configuration is specified to be refused)
      \* the same method computes it in the reference library (bigcrypt and descrypt share their setting space)
      /\ S!Effective(SpecOutcome(ev).m, ev.pl, Len(ev.s)) = S!Effective(S!Dispatch(S!AllMethods, ev.s), ev.pl, Len(ev.s)))
+C02_Released(ev) ==
+  A_Released(ev)
   => (ev.out = T[ev.rprev].out /\ ObservedSuccess(ev) = ObservedSuccess(T[ev.rprev]))
 C18_CanHash(ev) == (ObservedSuccess(ev) /\ ev.snull = 0) => S!Checksalt(Enabled, ev.s) # S!SALT_INVALID
 C_Literal(ev) == ev.gs = 1 => (ObservedSuccess(ev) /\ S!StartsWith(ev.out, ev.s))
@@ -176,6 +185,8 @@ C_Handle(ev) ==
 \* C15: nothing the library still controls is leaked, whatever failed
 C_Balanced(ev) == ev.livemap = 0 /\ ev.badfree = 0 /\ ev.liveheap = ev.hlive
 
+AntNames == {"FailClosed", "FailClosedStaleErrno", "ShortSizes", "Wiped", "Result", "ResultNonzeroErrno", "UninitDependence", "AsIfAlone",
+             "Grow", "Handle", "RoundTrip", "Distinct", "FalseAcceptProbe", "Literal", "Released", "Balanced", "Shape"}
 V(p, n) == [l |-> l, p |-> p, n |-> n]
 PropOf(n) == CASE n \in {"FailClosed", "NoStale", "Token", "ShortSizes"} -> "C05"
                [] n = "Wiped" -> "C09" [] n = "Result" -> "C07" [] n = "Grow" -> "C14"
@@ -209,7 +220,26 @@ JudgeHash(ev) ==
               \cup (IF C18_CanHash(ev) THEN {} ELSE {V("C18", "CanHash")})
               \cup (IF C02_Released(ev) THEN {} ELSE {V("C02", "Released")})
               \cup (IF AnyFault(ev) /\ ~C_Balanced(ev) THEN {V("C15", "Balanced")} ELSE {})
-  IN [viol |-> coreV \cup conc,
+      \* vacuity guard: the predicates whose antecedent holds on this call (counted in cnt.ant, reported as evidence;
+      \* a check whose own predicate was never exercised is broken, tools/props.py REQUIRED_ANTS)
+      ants == (IF MustFail(c) THEN {"FailClosed"} ELSE {})
+              \cup (IF MustFail(c) /\ c.err0 \notin {0, EINVAL, ERANGE, ENOMEM} THEN {"FailClosedStaleErrno"} ELSE {})
+              \cup (IF c.fn = "crypt_rn" /\ ~SizeOK(c.sz) THEN {"ShortSizes"} ELSE {})
+              \cup (IF Validated(c) THEN {"Wiped"} ELSE {})
+              \cup (IF MustSucceed(c) /\ KeyLearned(ev) THEN {"Result"} ELSE {})
+              \cup (IF MustSucceed(c) /\ KeyLearned(ev) /\ c.err0 # 0 THEN {"ResultNonzeroErrno"} ELSE {})
+              \cup (IF MustSucceed(c) /\ KeyLearned(ev) /\ (pre.scr = Junk \/ pre.out = Junk) THEN {"UninitDependence"} ELSE {})
+              \cup (IF MustSucceed(c) /\ KeyLearned(ev) /\ ev.mt = 1 THEN {"AsIfAlone"} ELSE {})
+              \cup (IF c.fn = "crypt_ra" /\ c.grew THEN {"Grow"} ELSE {})
+              \cup (IF ev.e = "crypt_ra" THEN {"Handle"} ELSE {})
+              \cup (IF A_RoundTrip(ev) THEN {"RoundTrip"} ELSE {})
+              \cup (IF A_Distinct(ev) THEN {"Distinct"} ELSE {})
+              \cup (IF A_FalseAcceptProbe(ev) THEN {"FalseAcceptProbe"} ELSE {})
+              \cup (IF ev.gs = 1 THEN {"Literal"} ELSE {})
+              \cup (IF A_Released(ev) THEN {"Released"} ELSE {})
+              \cup (IF AnyFault(ev) THEN {"Balanced"} ELSE {})
+              \cup (IF ObservedSuccess(ev) THEN {"Shape"} ELSE {})
+  IN [viol |-> coreV \cup conc, ants |-> ants,
       div |-> IF AnyFault(ev) THEN {}
               ELSE IF oc.spec = "ok" /\ ~ObservedSuccess(ev) /\ ~AnyFault(ev) /\ SzClass(ev.size) \in {"sizeof", "big"}
                  THEN {[l |-> l, d |-> "model-ok-code-fail"]}
@@ -226,7 +256,7 @@ JudgeChecksalt(ev) ==
 
 \* ---- the trace machine --------------------------------------------------
 Init == l = 1 /\ st = [x \in {} |-> FreshObj] /\ viol = {} /\ div = {}
-        /\ cnt = [calls |-> 0, ok |-> 0, failed |-> 0, faulted |-> 0]
+        /\ cnt = [calls |-> 0, ok |-> 0, failed |-> 0, faulted |-> 0, ant |-> [n \in AntNames |-> 0]]
 
 Step ==
   /\ l <= Len(T)
@@ -240,7 +270,8 @@ Step ==
         /\ cnt' = [cnt EXCEPT !.calls = @ + 1,
                                !.ok = @ + (IF ObservedSuccess(ev) THEN 1 ELSE 0),
                                !.failed = @ + (IF ObservedSuccess(ev) THEN 0 ELSE 1),
-                               !.faulted = @ + (IF AnyFault(ev) THEN 1 ELSE 0)]
+                               !.faulted = @ + (IF AnyFault(ev) THEN 1 ELSE 0),
+                               !.ant = [n \in AntNames |-> @[n] + (IF n \in j.ants THEN 1 ELSE 0)]]
      ELSE IF ev.e = "obj" THEN
         /\ st' = SetSt(ev.o, IF ev.fill = 0 THEN FreshObj ELSE JunkObj)
         /\ UNCHANGED <<viol, div, cnt>>
